@@ -73,10 +73,15 @@ def gen(rng: random.Random, k: int, tier: str) -> dict:
         kind = rng.choices(["empirical", "sample", "toys", "toy_history"], weights=[2, 3, 3 if cur[0] == "numpy" else 0.7, 1.5])[0]
         if kind == "empirical":
             n = rng.randint(1, 40)
-            pool = [rng.randint(0, 12) * 0.25 for _ in range(rng.randint(1, 8))]
+            # 'all sample vectors and observed values': also negative samples/observations and other magnitudes
+            # (offsets and scales are exact in float32, so both precisions see the same numbers)
+            off = -0.25 * rng.randint(1, 10) if rng.random() < 0.4 else 0.0
+            scl = rng.choice([1.0, 1.0, 1.0, 2.0 ** -20, 2.0 ** 20])
+            pool = [(rng.randint(0, 12) * 0.25 + off) * scl for _ in range(rng.randint(1, 8))]
             samples = [rng.choice(pool) for _ in range(n)]
-            qs = sorted(set(rng.sample(samples, min(len(samples), 4)) + [min(samples) - 0.5, max(samples) + 0.5, -1.0, 0.0,
-                                                                          rng.randint(0, 12) * 0.25 + 0.125, rng.randint(0, 12) * 0.25]))
+            qs = sorted(set(rng.sample(samples, min(len(samples), 4)) + [min(samples) - 0.5 * scl, max(samples) + 0.5 * scl, -1.0 * scl, 0.0,
+                                                                          (rng.randint(0, 12) * 0.25 + 0.125 + off) * scl, (rng.randint(0, 12) * 0.25 + off) * scl,
+                                                                          (min(samples) + max(samples)) / 2]))
             ops.append({"op": "empirical", "samples": samples, "queries": qs})
         elif kind == "sample":
             ws = specs.gen_workspace(rng, max_channels=2, max_samples=2, max_bins=3, n_meas=(1, 1))
@@ -259,7 +264,7 @@ class World:
         for v in sorted(queries):
             ctx.c.oracle_evals["empirical"] += 1
             try:
-                form = (len(out) + int(v * 4)) % 3     # observed value as float, as 0-d tensor, as int when integral
+                form = (len(out) + int(abs(v) * 4) % 1000) % 3     # observed value as float, as 0-d tensor, as int when integral
                 arg = v
                 if form == 1:
                     arg = self.pyhf.tensorlib.astensor(v)
